@@ -16,8 +16,12 @@
                   effect when both slots are the same or link the same inode; replaces a
                   file/symlink destination; errors on a directory destination
       remove      unlinks the slot itself
-    Outside the model (the property is partial there): short writes, ENOSPC/EIO, permissions,
-    signals, concurrent modification by other processes, crash consistency. *)
+    Faults: every system call CopyFile/MoveFile make has a call site ([site]); a fault oracle
+    [faults = site -> choice] decides per site whether the call behaves normally ([Pass]), fails
+    without effect ([Fail e]: EACCES, EIO, ENOSPC, EINTR ...), or — for the data copy — stores only
+    the first [n] bytes and then fails ([Short n e]).  The theorems quantify over the oracle.
+    Outside the model (the property is partial there): concurrent modification by other
+    processes, crash consistency. *)
 From Coq Require Import List NArith Bool.
 Import ListNotations.
 Open Scope N_scope.
@@ -25,10 +29,20 @@ Open Scope N_scope.
 Inductive node := File (c : list N) | Dir.
 Inductive slotv := Empty | Link (i : N) | Sym (e : N).
 Inductive pstatus := POk (d : N) | PMissing | PNotDir.
-Inductive err := ENOENT | ENOTDIR | EISDIR | EXDEV | ELOOP | ESAMEFILE | EIO.
+Inductive err := ENOENT | ENOTDIR | EISDIR | EXDEV | ELOOP | ESAMEFILE | EIO | ENOSPC | EACCES.
 Inductive res (A : Type) := Ok (a : A) | Err (e : err).
 Arguments Ok {A} a.
 Arguments Err {A} e.
+
+(** fault oracle *)
+Inductive site := SRename | SOpen | SFstat | SStatDst | SCreate | SCopy | SRemove.
+Inductive choice := Pass | Fail (e : err) | Short (n : nat) (e : err).
+Definition faults := site -> choice.
+Definition no_faults : faults := fun _ => Pass.
+
+(** a call that either behaves as specified or fails without any effect *)
+Definition faulty {A : Type} (ch : choice) (r : res A) : res A :=
+  match ch with Pass => r | Fail e => Err e | Short _ e => Err e end.
 
 Record fs := mkFs {
   slot : N -> slotv;
@@ -93,16 +107,22 @@ Definition create (s : fs) (p : N) : res (fs * N) :=
 
 Definition write_at0 (old c : list N) : list N := c ++ skipn (length c) old.
 
-(** io.Copy(dest, src) on open files: what the source inode holds at this moment *)
-Definition io_copy (s : fs) (d si : N) : res fs :=
+(** io.Copy(dest, src) on open files: what the source inode holds at this moment is written from
+    offset 0; under [Short n e] only its first [n] bytes arrive before the error, under [Fail e] none *)
+Definition io_copy (ch : choice) (s : fs) (d si : N) : fs * option err :=
   match inode s si with
   | Some (File c) =>
       match inode s d with
-      | Some (File old) => Ok (set_inode s d (File (write_at0 old c)))
-      | _ => Err EIO
+      | Some (File old) =>
+          match ch with
+          | Pass => (set_inode s d (File (write_at0 old c)), None)
+          | Fail e => (s, Some e)
+          | Short n e => (set_inode s d (File (write_at0 old (firstn n c))), Some e)
+          end
+      | _ => (s, Some EIO)
       end
-  | Some Dir => Err EISDIR
-  | None => Err EIO
+  | Some Dir => (s, Some EISDIR)
+  | None => (s, Some EIO)
   end.
 
 Definition is_dir_slot (s : fs) (v : slotv) : bool :=
@@ -150,49 +170,55 @@ Definition remove (s : fs) (e : N) : res fs :=
   | PNotDir => Err ENOTDIR
   end.
 
-(** ** the two functions; result [None] = nil error *)
+(** ** the two functions under a fault oracle [F]; result [None] = nil error *)
 
-Definition copy_tail (s : fs) (si dst : N) : fs * option err :=
-  match create s dst with
+Definition copy_tail (F : faults) (s : fs) (si dst : N) : fs * option err :=
+  match faulty (F SCreate) (create s dst) with
   | Err e => (s, Some e)
-  | Ok (s1, d) =>
-      match io_copy s1 d si with
-      | Err e => (s1, Some e)
-      | Ok s2 => (s2, None)
-      end
+  | Ok (s1, d) => io_copy (F SCopy) s1 d si
   end.
 
-(** CopyFile as it is now: open, src.Stat, os.Stat(dest) + os.SameFile, create, io.Copy *)
-Definition copy_file (s : fs) (src dst : N) : fs * option err :=
-  match open s src with
+(** CopyFile as it is now: open, src.Stat, os.Stat(dest) + os.SameFile, create, io.Copy.
+    An error of os.Stat(dest) — whatever it is — means "go on" in the code. *)
+Definition copy_file_f (F : faults) (s : fs) (src dst : N) : fs * option err :=
+  match faulty (F SOpen) (open s src) with
   | Err e => (s, Some e)
   | Ok si =>
-      match stat s dst with
-      | Ok di => if si =? di then (s, Some ESAMEFILE) else copy_tail s si dst
-      | Err _ => copy_tail s si dst
+      match F SFstat with
+      | Pass =>
+          match faulty (F SStatDst) (stat s dst) with
+          | Ok di => if si =? di then (s, Some ESAMEFILE) else copy_tail F s si dst
+          | Err _ => copy_tail F s si dst
+          end
+      | Fail e => (s, Some e)
+      | Short _ e => (s, Some e)
       end
-  end.
-
-(** CopyFile before the repair (no same-file test): open, create, io.Copy *)
-Definition copy_file_old (s : fs) (src dst : N) : fs * option err :=
-  match open s src with
-  | Err e => (s, Some e)
-  | Ok si => copy_tail s si dst
   end.
 
 (** MoveFile: rename, else CopyFile and then Remove *)
-Definition move_file (s : fs) (src dst : N) : fs * option err :=
-  match rename s src dst with
+Definition move_file_f (F : faults) (s : fs) (src dst : N) : fs * option err :=
+  match faulty (F SRename) (rename s src dst) with
   | Ok s1 => (s1, None)
   | Err _ =>
-      match copy_file s src dst with
+      match copy_file_f F s src dst with
       | (s1, Some e) => (s1, Some e)
       | (s1, None) =>
-          match remove s1 src with
+          match faulty (F SRemove) (remove s1 src) with
           | Ok s2 => (s2, None)
           | Err e => (s1, Some e)
           end
       end
+  end.
+
+(** without faults *)
+Definition copy_file (s : fs) (src dst : N) : fs * option err := copy_file_f no_faults s src dst.
+Definition move_file (s : fs) (src dst : N) : fs * option err := move_file_f no_faults s src dst.
+
+(** CopyFile before the repair (no same-file test): open, create, io.Copy; no faults *)
+Definition copy_file_old (s : fs) (src dst : N) : fs * option err :=
+  match open s src with
+  | Err e => (s, Some e)
+  | Ok si => copy_tail no_faults s si dst
   end.
 
 (** what a path reads as: the bytes of the regular file it resolves to *)
